@@ -7,6 +7,10 @@ Driver ops for the C14 slice (number / string / glue functions of the stdlib).
   std.glue  <name> (<val>*) (<entry>*)         -- string / regexp / date / csv function
   std.setstring <str> <base>                   -- big.Int.SetString: `none` | <int>
   std.substr (<str>*) <off> <len>              -- the cluster-list function itself
+  std.glue.ref <name> (<val>*) (<entry>*)      -- d14b: split / trim family with the strings package transliterated (only nfc recorded)
+  std.dom   <name> (<val>*)                    -- d14b: ok/err class of log / pow from the NaN-domain rule alone
+  std.strref split <str> <sep>                 -- d14b: strings.Split itself
+  std.strref parsedur <str>                    -- d14b: does time.ParseDuration accept? `ok` | `err`
 
   entry := (<libfn> (<str>*) <answer>)         -- one recorded call of the real library
 
@@ -17,6 +21,9 @@ the harness had not recorded — a disagreement about which call is made).
 import Driver.Util
 import CtyModel.Stdlib.Format
 import CtyModel.Stdlib.d14FormatList
+import CtyModel.Stdlib.d14bRef
+import CtyModel.Stdlib.d14bDuration
+import CtyModel.Stdlib.d14bTimestamp
 open CtyModel CtyModel.StdNum
 
 namespace HStdNum
@@ -172,4 +179,23 @@ def handleStdNum : Handler := fun op args =>
     let r1 := implRes (f (libOf t false) as)
     let r2 := implRes (f (libOf t true) as)
     pure (if r1 == r2 then r1 else "oracle-miss")
+  | "std.glue.ref", [.atom name, .list as, .list es] => do
+    let f ← (if name == "timeadd" then some (fun L => timeAddImpl (D14b.refLibTs L))
+      else if name == "formatdate" then some (fun L => formatDateImpl (D14b.refLibTs L)) else D14b.refImpl name)
+    let as ← as.mapM Value.ofSexp
+    let t ← es.mapM decEntry
+    let r1 := implRes (f (libOf t false) as)
+    let r2 := implRes (f (libOf t true) as)
+    pure (if r1 == r2 then r1 else "oracle-miss")
+  | "std.dom", [.atom name, .list as] => do
+    let as ← as.mapM Value.ofSexp
+    D14b.domClass name as
+  | "std.strref", [.atom "parsedur", s] => do
+    let s ← Sexp.decStr s
+    pure (match D14b.durAccepts s.toList with
+      | some true => "ok" | some false => "err" | none => "unmodelled")
+  | "std.strref", [.atom "split", s, sep] => do
+    let s ← Sexp.decStr s
+    let sep ← Sexp.decStr sep
+    pure (toString (Sexp.list (((D14b.goSplit s.toList sep.toList).map String.ofList).map Sexp.encStr)))
   | _, _ => none
